@@ -28,7 +28,7 @@ type VM struct {
 }
 
 func (v *VM) Set(key string, value Value) { v.globals.Set(key, value) }
-func (v *VM) Get(key string) Value        { return v.globals.Get(key) }
+func (v *VM) Get(key string) Value        { return v.globals.Peek(key) }
 
 type VMOption func(*vmConfig)
 type vmConfig struct {
@@ -122,7 +122,7 @@ func (v *VM) Func(fnc Value, xRets int, params ...Value) (rets []Value, err erro
 }
 
 func (v *VM) Call(name string, xRets int, params ...Value) (rets []Value, err error) {
-	return v.Func(v.globals.Get(name), xRets, params...)
+	return v.Func(v.globals.Peek(name), xRets, params...)
 }
 
 func (v *VM) Yield() {
